@@ -168,11 +168,28 @@ def run_real(case, script=None):
     import contextlib
     import io
 
+    mode = "script" if script is not None else "record"
     with contextlib.redirect_stdout(io.StringIO()):   # the code prints warnings
         S = make_flake(case)
-        px = Proxy(S._rng, "script" if script is not None else "record", script)
-        S._rng = px
-        S.run()
+        # run() restarts its generator (`np.random.default_rng(self.seed)`): the proxy is
+        # installed by patching the factory in THIS process for the duration of the run;
+        # older trees that keep `self._rng` get the proxy assigned directly.
+        made = []
+        orig = np.random.default_rng
+
+        def factory(*a, **kw):
+            q = Proxy(orig(*a, **kw), mode, script)
+            made.append(q)
+            return q
+
+        assigned = Proxy(S._rng, mode, script)
+        S._rng = assigned
+        np.random.default_rng = factory
+        try:
+            S.run()
+        finally:
+            np.random.default_rng = orig
+        px = S._rng if isinstance(S._rng, Proxy) else (made[-1] if made else assigned)
     n = S.N_vials_total
     st = S.stats
     nbrs, ext, _ = interaction(S)
